@@ -120,6 +120,16 @@ class Closure:
         self.func, self.env, self.self_obj = func, env, self_obj
 
 
+class LambdaV:
+    """a lambda expression with the environment and the scope it was written in"""
+
+    def __init__(self, node: ast.Lambda, env: "Env", scope: Any):
+        self.node, self.env, self.scope = node, env, scope
+
+    def __repr__(self) -> str:
+        return "Lambda"
+
+
 class NewTypeV:
     def __init__(self, name: str):
         self.name = name
@@ -319,6 +329,10 @@ class Evaluator:
                 env.vars[p] = self.eval(defaults[i - off], Env(), f.module)
             else:
                 env.vars[p] = TOP
+        if a.vararg is not None:
+            env.vars[a.vararg.arg] = list(args[len(pos):])
+        if a.kwarg is not None:
+            env.vars[a.kwarg.arg] = {k: v for k, v in kwargs.items() if k not in pos}
         for i, p in enumerate(a.kwonlyargs):
             if p.arg in kwargs:
                 env.vars[p.arg] = kwargs[p.arg]
@@ -682,7 +696,7 @@ class Evaluator:
         if isinstance(e, (ast.ListComp, ast.GeneratorExp)):
             return self.comprehension(e, env, scope)
         if isinstance(e, ast.Lambda):
-            return TOP
+            return LambdaV(e, env, scope)
         if isinstance(e, ast.Starred):
             return TOP
         return TOP
@@ -950,7 +964,33 @@ class Evaluator:
         return None if unknown else False
 
     # ------------------------------------------------------------------ calls
+    def apply_lambda(self, fn: "LambdaV", args: List[Any], kwargs: Dict[str, Any]) -> Any:
+        if self.depth >= self.max_depth:
+            raise Unsupported("call depth")
+        a = fn.node.args
+        env = Env(fn.env)
+        pos = [x.arg for x in a.posonlyargs + a.args]
+        off = len(pos) - len(a.defaults)
+        for i, p in enumerate(pos):
+            if i < len(args):
+                env.vars[p] = args[i]
+            elif p in kwargs:
+                env.vars[p] = kwargs[p]
+            elif i >= off:
+                env.vars[p] = self.eval(a.defaults[i - off], fn.env, fn.scope)
+            else:
+                env.vars[p] = TOP
+        if a.vararg is not None:
+            env.vars[a.vararg.arg] = list(args[len(pos):])
+        self.depth += 1
+        try:
+            return self.eval(fn.node.body, env, fn.scope)
+        finally:
+            self.depth -= 1
+
     def apply_closure(self, fn: "Closure", args: List[Any], kwargs: Dict[str, Any]) -> Any:
+        if isinstance(fn, LambdaV):
+            return self.apply_lambda(fn, args, kwargs)
         if fn.self_obj is not None:
             args = [fn.self_obj] + list(args)
         outs = self.call_function(fn.func, args, kwargs, fn.env if fn.func.parent is not None else None)
@@ -990,7 +1030,7 @@ class Evaluator:
         if isinstance(fn, NewTypeV) and len(args) == 1 and not kwargs:
             return args[0]
         # map / reduce of a known function over a known sequence
-        if name.split(".")[-1] in ("map", "reduce") and args and isinstance(args[0], Closure) and not kwargs:
+        if name.split(".")[-1] in ("map", "reduce") and args and isinstance(args[0], (Closure, LambdaV)) and not kwargs:
             def _seq(v: Any) -> Optional[List[Any]]:
                 if isinstance(v, Const) and isinstance(v.v, (list, tuple)):
                     return [Const(x) for x in v.v]
@@ -1008,6 +1048,8 @@ class Evaluator:
                     for x in seq:
                         acc = self.apply_closure(args[0], [acc, x], {})
                     return acc
+        if isinstance(fn, LambdaV):
+            return self.apply_lambda(fn, args, kwargs)
         if isinstance(fn, Closure):
             return self.apply_closure(fn, args, kwargs)
         if isinstance(fn, tuple) and fn and fn[0] == "bound":
